@@ -217,3 +217,58 @@ Section Pchip.
     let m0 := (y1 - y0) / h0 in
     hermite y0 y1 m0 m0 h0 ((x - x0) / h0).
 End Pchip.
+
+(* ------------------------------------------------------------------ *)
+(* Histories on ONE Fourier instance: the public setters               *)
+(* ------------------------------------------------------------------ *)
+Section History.
+  Context {F : Type}.
+
+  (* what the instance remembers; freq_required is recomputed by empymod's
+     check_time when time / ft / ftarg change (oracle: the new list is the
+     argument of SetReq) *)
+  Record fstate : Type := mkFS {
+    s_fmin : F; s_fmax : F;
+    s_every : option nat; s_inp : option (list F);
+    s_req : list F }.
+
+  Inductive fop : Type :=
+  | SetFmin (x : F) | SetFmax (x : F)
+  | SetEvery (k : option nat)           (* every_x_freq setter: keeps every_x_freq *)
+  | SetInput (l : option (list F))      (* input_freq setter: keeps input_freq *)
+  | SetReq (l : list F).                (* time / fourier_arguments / signal-independent *)
+
+  Definition fstep (s : fstate) (o : fop) : fstate :=
+    match o with
+    | SetFmin x => mkFS x (s_fmax s) (s_every s) (s_inp s) (s_req s)
+    | SetFmax x => mkFS (s_fmin s) x (s_every s) (s_inp s) (s_req s)
+    | SetEvery k => let ei := check_coarse false k (s_inp s) in
+                    mkFS (s_fmin s) (s_fmax s) (fst ei) (snd ei) (s_req s)
+    | SetInput l => let ei := check_coarse true (s_every s) l in
+                    mkFS (s_fmin s) (s_fmax s) (fst ei) (snd ei) (s_req s)
+    | SetReq l => mkFS (s_fmin s) (s_fmax s) (s_every s) (s_inp s) l
+    end.
+
+  Definition frun (s : fstate) (ops : list fop) : fstate := fold_left fstep ops s.
+
+  (* Fourier(time, fmin, fmax, ..., input_freq=, every_x_freq=) *)
+  Definition finit (fmin fmax : F) (every_x : option nat) (inp : option (list F))
+             (req : list F) : fstate :=
+    let ei := check_coarse true every_x inp in mkFS fmin fmax (fst ei) (snd ei) req.
+
+  Definition exclusive (s : fstate) : Prop := s_every s = None \/ s_inp s = None.
+End History.
+
+Section HistoryInterp.
+  Context {F : Type} {O : FOps F}.
+  Variable leb : F -> F -> bool.
+  Variable logf : F -> F.
+  Variable spline1 : list F -> list F -> F -> F.
+  Variable pchip1 : list F -> list F -> F -> F.
+  Variable tiny : F.
+
+  (* interpolate() on an instance: a function of the CURRENT parameters only *)
+  Definition interpolate_state (s : fstate) (fdata : list (F * F)) : option (list (F * F)) :=
+    interpolate leb logf spline1 pchip1 tiny (s_fmin s) (s_fmax s) (s_every s) (s_inp s)
+                (s_req s) fdata.
+End HistoryInterp.
